@@ -50,7 +50,7 @@ def project(events):
             add(dict(ev="scn", scn=e["scn"]), e)
         elif k in ("up", "down", "cut"):
             add(dict(ev=k, inc=e["inc"]), e)
-        elif k in ("info", "gate", "dsgate", "stall", "replay", "ugate"):
+        elif k in ("info", "gate", "dsgate", "stall", "replay", "ugate", "addrupd"):
             add(dict(ev="info"), e)
         elif k == "lat":
             add(dict(ev="lat", max_us=min(e["max_us"], 2_000_000_000), over_bound=e["over_bound"], stuck=e["stuck"], calls=e["calls"]), e)
@@ -201,6 +201,23 @@ def c06_scenarios(ctx):
         sid += 1
         scns.append(dict(id=sid, kind="mixed", route="all", connbuf=cb, iobuf=iob, flush_ms=fl, lines=lines, linelen=60,
                          rcvbuf=4096, close_after=0, switches=[]))
+    # address update at run time (Route.UpdateDestination addr=...) away from an endpoint whose connection writer is blocked
+    # (black hole from the start / reads first, then stops) to a healthy endpoint: Dispatch stays within the bound before and
+    # after, and the lines handed after the update are received by the new endpoint or counted.  `bg`: traffic goes on
+    # while the update is in progress (latency bound only).  addrok: the previous endpoint is healthy (control).
+    addr = [("addrbh", False), ("addrstall", False), ("addrbh", True)] if q else \
+           [("addrbh", False), ("addrstall", False), ("addrbh", True), ("addrstall", True), ("addrok", False), ("addrbh", False)]
+    rnga = random.Random(ctx.seed * 7919 + 66)      # own stream: the scenarios generated below stay what they were
+    for j, (kind, bg) in enumerate(addr):
+        cb, iob, fl = sizes[j % len(sizes)]
+        if iob <= 8:
+            cb, iob, fl = sizes[1]
+        sid += 1
+        ll = 1000
+        post = 2000
+        scns.append(dict(id=sid, kind=kind, bg=bg, route=rnga.choice(["all", "first", "chash"]), connbuf=cb, iobuf=iob, flush_ms=fl,
+                         lines=2 * (7_000_000 // ll + iob // ll + cb + 2100) + 2 * post, linelen=ll, post=post,
+                         rcvbuf=rnga.choice([2048, 8192]), close_after=0, stall_ms=max(400, 12 * fl), switches=[]))
     if not q:
         # behaviour switches mid-stream (latency bound only; no steady phase)
         modes = ["healthy", "blackhole", "slow", "closeconns", "down", "up"]
